@@ -456,7 +456,7 @@ def gen_long_case(r):
     ftype = r.choice([TYPE_S16HL, TYPE_S16LH, TYPE_AU2])
     au = ftype == TYPE_AU2
     maxnlpc = r.choice([0, 2, 8])
-    nround = (7000 if au else 4500) // (bs0 * nchan) + r.randint(0, 4)
+    nround = (24000 if au else 11000) // (bs0 * nchan) + r.randint(0, 4)
     script, total = [], [[] for _ in range(nchan)]
     for g in range(nround):
         for c in range(nchan):
@@ -908,7 +908,16 @@ def search(ctx, impl, n_cases):
             bad.append(("roundtrip", dict(rep, got=got if got[0] != "ok" else ("ok", got[1][:4000]))))
             continue
         # truncations: every cut that removes a bit of the stream must raise IOError
-        cuts = sorted(set([4, 5, 8, 9, len(payload) - 1, len(payload) - 4] + [r.randint(4, len(payload) - 1) for _ in range(3)]))
+        cuts = set([4, 5, 8, 9, len(payload) - 1, len(payload) - 4] + [r.randint(4, len(payload) - 1) for _ in range(3)])
+        if len(payload) > 16384:
+            # cuts around the reader's own boundaries: the 16 KiB first read, and every later refill (1 KiB less the
+            # carried bytes), leaving 0..4 bytes in the last refill
+            marks = [16384] + list(range(17405, len(payload), 1024)) + list(range(16384 + 1024, len(payload), 1024))
+            for m0 in r.sample(marks, min(len(marks), 4)):
+                for j in (-1, 0, 1, 2, 3, 4):
+                    cuts.add(m0 + j)
+            ctx.count("S:refill-boundary-truncations")
+        cuts = sorted(cuts)
         for cut in cuts:
             if 4 <= cut < len(payload):
                 g2 = impl.decode(payload[:cut], c["nchan"], nsamp, c["ftype"], dtkey)
